@@ -303,7 +303,12 @@ def op_plot(ctx, st, op, prop, info):
                 elif fn == "contour_2d" and out is not None:
                     fig, (ax, cax) = out
                     pk = [l for l in ax.get_lines() if classify_line(l) == "peak_by_azimuth"]
-                    fpk, _ = obj.mean_curve_peak_by_azimuth(distribution=dmc)
+                    try:
+                        fpk, _ = obj.mean_curve_peak_by_azimuth(distribution=dmc)
+                    except ValueError:
+                        fpk = None
+                    ctx.check(fpk is not None, "azimuth_peak_markers",
+                              "peak markers were drawn but the object reports no mean-curve peak for some azimuth", key=key)
                     ctx.check(len(pk) == 1 and close(pk[0].get_xdata(), fpk, 0, 0) and
                               close(pk[0].get_ydata(), np.asarray(obj.azimuths, float), 0, 0), "azimuth_peak_markers",
                               "square markers != mean_curve_peak_by_azimuth / azimuths", key=key)
